@@ -72,7 +72,16 @@ fn project(book: &umya::Spreadsheet) -> Value {
                 .map(|c| json!([c.get_col_num(), c.get_width(), c.get_hidden()]))
                 .collect();
             cols.sort_by_key(|x| x[0].as_u64());
-            json!({"rows": rows, "cols": cols})
+            // tables with everything they carry (columns, totals row label/function, style info)
+            let tables: Vec<String> = ws
+                .get_tables()
+                .iter()
+                .map(|t| {
+                    let cols: Vec<String> = t.get_columns().iter().map(|c| format!("{}|{}|{:?}|{}", c.get_name(), c.get_totals_row_label().unwrap_or(""), c.get_totals_row_function(), c.get_calculated_column_formula().map(|s| s.as_str()).unwrap_or(""))).collect();
+                    format!("{}|{}|{:?}|{}|{}|{:?}|{:?}", t.get_name(), t.get_display_name(), t.get_area(), t.get_totals_row_shown(), t.get_totals_row_count(), cols, t.get_style_info().map(|s| s.get_name().to_string()))
+                })
+                .collect();
+            json!({"rows": rows, "cols": cols, "tables": tables})
         })
         .collect();
     if let Some(sheets) = v["sheets"].as_array_mut() {
